@@ -12,6 +12,8 @@ def check(ctx):
     nown, ntypes = ffi.check_ownership(ctx, rep)
     rep.floor("ownership primitives (from_raw / into_raw) in c_api", nown, 12)
     rep.floor("owning handle types returned", ntypes, 1)
+    nuns = ffi.check_unsafe_calls(ctx, rep)
+    rep.floor("calls to unsafe fns in c_api", nuns, 100)
     # N2 (null is reported) shares the error dataflow with C17
     ffi.check_errors(ctx, rep)
     pr = panic.PanicRule(ctx)
@@ -24,7 +26,7 @@ def check(ctx):
     return ("All %d extern \"C\" functions: N1 must-dataflow 'pointer known non-null' over %d raw-pointer parameters (every use other than "
             "is_null/as_ref/as_mut must be dominated by a passed null test; forwarding to another function requires the callee to be clean); "
             "N2 every null arm reaches new_error/update_last_error before returning; N3 Box::from_raw / CString::from_raw only in the two destroy "
-            "functions, into_raw results flow to the return value, no leak primitives, every owning handle type has a destroy function; N4 "
+            "functions, into_raw results flow to the return value, no leak primitives, every owning handle type has a destroy function; N5 every call to an unsafe fn is on an audited whitelist (no raw writes, unchecked constructors, transmutes); N4 "
             "R-PANIC over the %d bodies reachable from the boundary (%d sites)." % (len(E), nparams, len(reach), nsites))
 
 
